@@ -40,7 +40,7 @@ func runLogoutStream(c *Ctx, n int) {
 		}
 		// clock sweep around the IdP certificate window (wall time is far outside it)
 		if r.Intn(5) == 0 {
-			g.now = []time.Time{certNB.Add(-time.Hour), certNB, certNA, certNA.Add(time.Hour)}[r.Intn(4)]
+			g.now = []time.Time{certNB.Add(-time.Hour), certNB.Add(-time.Nanosecond), certNB, certNA, certNA.Add(time.Nanosecond), certNA.Add(600 * time.Millisecond), certNA.Add(time.Hour)}[r.Intn(7)]
 			sp.Clock = dsig.NewFakeClockAt(g.now)
 		}
 		if prevSP != nil && r.Intn(2) == 0 {
@@ -117,12 +117,26 @@ func runLogoutStream(c *Ctx, n int) {
 		}
 		raw, _ := doc.WriteToBytes()
 		genuine := true
+		sigDeep := false
 		// attacker edits
 		if r.Intn(3) == 0 {
 			d2 := etree.NewDocument()
 			if d2.ReadFromBytes(raw) == nil {
 				rt := d2.Root()
-				switch r.Intn(8) {
+				switch r.Intn(9) {
+				case 8: // the message's own signature moved below samlp:Extensions: still "its signature" for the verifier (any
+					// depth, Reference names the root ID), but it cannot verify any more (the Extensions element was not signed)
+					for _, ch := range rt.ChildElements() {
+						if ch.Tag == "Signature" && !sigDeep {
+							idx := ch.Index()
+							rt.RemoveChild(ch)
+							ext := etree.NewElement(rs.Style.p("Extensions"))
+							ext.AddChild(ch)
+							rt.InsertChildAt(idx, ext)
+							sigDeep = true
+							labels = append(labels, "own-signature-below-extensions")
+						}
+					}
 				case 7:
 					rt.CreateAttr("SignatureValidated", "true")
 					labels = append(labels, "signaturevalidated-attribute")
@@ -342,6 +356,9 @@ func runLogoutStream(c *Ctx, n int) {
 		} else if genuine && len(faults) == 0 && (rs.SignedBy == nil || sigOK || sp.SkipSignatureValidation) {
 			c.Violate("spec", "logout:genuine-rejected", "a genuine, correctly addressed logout message was rejected: "+err.Error(), replay)
 		}
+		if sigDeep && !sp.SkipSignatureValidation && accepted {
+			c.Violate("spec", "logout:bad-signature-accepted:deep", "logout message whose own signature sits below samlp:Extensions (so it cannot verify) was accepted: a present-but-bad signature downgraded to unsigned", replay)
+		}
 		if genuine && rs.SignedBy != nil && !sigOK && !sp.SkipSignatureValidation && accepted {
 			c.Violate("spec", "logout:bad-signature-accepted", "logout message whose own signature does not verify was accepted (downgraded to unsigned)", replay)
 		}
@@ -388,6 +405,7 @@ func runPredecodeStream(c *Ctx, n int) {
 	csL := c.NewSet("prel", "Base Time Xml Ns Types Profile Decode Response",
 		"node", "fun root => res_val logout_response_val (other (unmarshal_logout_response root))")
 	cs.PerShard, csL.PerShard = 60, 60
+	oversize := 0
 	for k := 0; k < n; k++ {
 		r := c.R
 		g := &xgen{r: r, now: baseNow.Add(time.Duration(r.Intn(100000)) * time.Second)}
@@ -448,7 +466,10 @@ func runPredecodeStream(c *Ctx, n int) {
 		}
 		// attacker-shaped roots: duplicated / prefixed / xmlns-shadowed attributes, extra Issuer elements, leading whitespace / comments
 		s := string(raw)
-		shape := r.Intn(13)
+		shape := r.Intn(14)
+		if shape == 13 && oversize >= c.N(3, 12) {
+			shape = 4
+		}
 		rootTagEnd := strings.Index(s[strings.Index(s, rs.Kind):], " ") + strings.Index(s, rs.Kind)
 		ins := func(at int, text string) { s = s[:at] + text + s[at:] }
 		switch shape {
@@ -464,6 +485,12 @@ func runPredecodeStream(c *Ctx, n int) {
 		case 3:
 			ins(rootTagEnd, ` ID="_a" xmlns:x="urn:x" x:ID="_s"`)
 			labels = append(labels, "dup-prefixed-dup")
+		case 13:
+			// an UNCOMPRESSED message larger than the 5 MiB the unverified decoders allow for DECOMPRESSED data: no size limit
+			// applies to the raw presentation on the validation side, so none may apply to the pre-decode either
+			oversize++
+			s = s + strings.Repeat("\n", 5<<20+1+r.Intn(4096))
+			labels = append(labels, "raw-larger-than-5MiB")
 		case 4:
 			s = "\n  " + s
 			labels = append(labels, "leading-whitespace")
@@ -504,7 +531,7 @@ func runPredecodeStream(c *Ctx, n int) {
 		}
 		raw = []byte(s)
 		wire := raw
-		if r.Intn(3) == 0 {
+		if r.Intn(3) == 0 && shape != 13 {
 			wire = deflateBytes(raw, -1)
 			labels = append(labels, "deflated")
 		}
@@ -519,6 +546,9 @@ func runPredecodeStream(c *Ctx, n int) {
 		}
 		enc := b64(wire)
 		replay := map[string]interface{}{"op": "pre-decode vs validation", "labels": labels, "encoded": enc, "xml": string(raw), "clock": g.now.Format(time.RFC3339Nano)}
+		if shape == 13 {
+			replay["xml"] = strings.TrimRight(string(raw), "\n") + fmt.Sprintf("  [followed by %d line feeds]", len(raw)-len(strings.TrimRight(string(raw), "\n")))
+		}
 		sort.Strings(labels)
 		for _, l := range labels {
 			c.Count("pre:" + l)
